@@ -209,10 +209,20 @@ theorem ext_validateChildParentsAttrs (cas : List ChildParentsAttr) (tps : List 
     · exact mem_insert_of_mem _ _ _ hm
     · exact hm
 
+theorem ext_nestedNamePass (named : Bool) (pas : List ParentAttr) (x : TraitAttrCore × Kind) :
+    Ext (fun es => nestedNamePass named pas es x) := by
+  intro es m hm
+  simp only [nestedNamePass]
+  split
+  · exact mem_foldl_of_mem _ _ _ _ (fun f es hm => mem_insert_of_mem _ _ _ hm) hm
+  · exact hm
+
 theorem ext_validateParentAttrs (named : Bool) (pas : List ParentAttr) (byKind : List (TraitAttrCore × Kind)) :
     Ext (validateParentAttrs named pas byKind) := by
   intro es m hm
   unfold validateParentAttrs
+  have hm : m ∈ (byKind.filter fun (x, k) => !k.isFrom && x.quickReturn.isNone).foldl (nestedNamePass named pas) es :=
+    mem_foldl_of_mem _ _ _ _ (fun x es hm => ext_nestedNamePass named pas x es m hm) hm
   refine mem_foldl_of_mem _ _ _ _ (fun pa es hm => ?_) hm
   simp only
   refine mem_foldl_of_mem _ _ _ _ (fun x es hm => ?_) ?_
@@ -321,7 +331,9 @@ theorem ext_namePass (input : Struct) (dta : TraitAttrCore) (k : Kind) : Ext (na
   unfold namePass
   split
   · refine mem_foldl_of_mem _ _ _ _ (fun field es hm => ?_) hm
-    exact ext_memberNameCheck _ _ _ _ _ _ hm
+    split
+    · exact hm
+    · exact ext_memberNameCheck _ _ _ _ _ _ hm
   · exact hm
 
 theorem ext_validateFields (input : Struct) (byKind : List (TraitAttrCore × Kind)) (tps : List TypePath) :
